@@ -314,6 +314,14 @@ def main():
             known_hits.append(dict(cls=k["class"], count=0, what=k.get("what", ""), replay=k["replay_file"]))
         else:
             log("note: listed finding %s no longer reproduces from %s (%s)" % (k["class"], k["replay_file"], r.stdout.strip()[-160:]))
+    # a repaired defect suppresses nothing: where its replay file was kept, it is replayed too, and its return is a violation
+    for k in known:
+        if k.get("property") != prop or k.get("status") != "fixed" or not str(k.get("replay_file", "")).endswith(".json"): continue
+        if not os.path.exists(k["replay_file"]): continue
+        r = subprocess.run(["build/" + engine, "--replay", k["replay_file"]], stdout=subprocess.PIPE, stderr=subprocess.PIPE, text=True)
+        m = re.search(r"^replay viol class=(\S+)", r.stdout, re.M)
+        if r.returncode == 1 and m:
+            new_violations.append(dict(cls=m.group(1), count=0, replay=k["replay_file"], note="a repaired defect is back (%s)" % k.get("commit", "?"), steps=None))
     os.makedirs("replays", exist_ok=True)
     os.makedirs("replays/tmp", exist_ok=True)
     classes = sorted(by_class.items(), key=lambda kv: (-len(kv[1]), kv[0]))
